@@ -15,6 +15,7 @@ import (
 
 	"github.com/open2b/scriggo"
 	"github.com/open2b/scriggo/ast"
+	"github.com/open2b/scriggo/native"
 )
 
 // Case is one template (possibly multi-file) to parse.
@@ -81,6 +82,81 @@ func ParseExpanded(c Case) (tree *ast.Tree, err error) {
 	return nil, err
 }
 
+// TypedGlobals are the globals the type-checked cases may use.
+func TypedGlobals() native.Declarations {
+	g := 7
+	gs := "s"
+	return native.Declarations{
+		"g":  &g,
+		"gs": &gs,
+		"F":  func(i int) int { return i + 1 },
+		"K":  42,
+	}
+}
+
+// ParseTyped builds the template completely and returns the expanded tree the
+// type checker has annotated (Upvars, IR fields, reflect types): the tree
+// handed to ExpandedTransformer is the object the checker then works on.
+func ParseTyped(c Case) (tree *ast.Tree, err error) {
+	defer func() {
+		if e := recover(); e != nil {
+			tree, err = nil, fmt.Errorf("verif: BuildTemplate panicked: %v", e)
+		}
+	}()
+	fsys := scriggo.Files{}
+	for n, s := range c.Files {
+		fsys[n] = []byte(s)
+	}
+	_, err = scriggo.BuildTemplate(fsys, c.Entry, &scriggo.BuildOptions{
+		AllowGoStmt: true,
+		Globals:     TypedGlobals(),
+		ExpandedTransformer: func(t *ast.Tree) error {
+			tree = t
+			return nil
+		},
+	})
+	if err != nil {
+		return nil, err
+	}
+	return tree, nil
+}
+
+// Typed returns templates that type check and make the checker annotate the
+// tree: macros and function literals that capture local variables, package
+// level variables, globals and other closures' variables; append calls, render
+// expressions, using statements, extends/import.
+func Typed() []Case {
+	one := func(name, src string) Case {
+		return Case{Name: "typed:" + name, Entry: "index.html", Files: map[string]string{"index.html": src}}
+	}
+	lib := "{% macro A %}a{% end %}{% var V = 3 %}{% macro B %}{{ V }}{% end %}"
+	return []Case{
+		one("macro-captures-var", "{% var v = 1 %}{% macro M %}{{ v }}{% end %}{{ M() }}"),
+		one("macro-captures-two", "{% var v, w = 1, \"x\" %}{% macro M(a int) %}{{ v + a }}{{ w }}{% end %}{{ M(2) }}"),
+		one("macro-captures-global", "{% macro M %}{{ g }}{{ gs }}{% end %}{{ M() }}"),
+		one("macro-calls-macro", "{% var v = 1 %}{% macro A %}{{ v }}{% end %}{% macro B %}{{ A() }}{{ v }}{% end %}{{ B() }}"),
+		one("func-captures-local", "{% x := 2 %}{% f := func() int { return x } %}{{ f() }}"),
+		one("func-captures-and-assigns", "{% x := 2 %}{% f := func() { x++ } %}{% f() %}{{ x }}"),
+		one("func-captures-global", "{% f := func() int { return g + F(K) } %}{{ f() }}"),
+		one("nested-closures", "{% x := 1 %}{% f := func() func() int { y := 3; return func() int { return y + x + g } } %}{{ f()() }}"),
+		one("closure-in-loop", "{% for i := 0; i < 2; i++ %}{% f := func() int { return i } %}{{ f() }}{% end %}"),
+		one("closure-in-if-and-switch", "{% x := 1 %}{% if x > 0 %}{% f := func() int { return x } %}{{ f() }}{% end %}{% switch x %}{% case 1 %}{% h := func() int { return x * 2 } %}{{ h() }}{% end %}"),
+		one("go-form-closure", "{%% x := 1; f := func(a int) (r int) { r = a + x; return }; show f(2) %%}"),
+		one("append", "{% s := []int{} %}{% s = append(s, 1, 2) %}{% t := append(s, s...) %}{{ len(t) }}"),
+		one("using", "{% show itea; using %}t{% end %}{% var u = itea; using html %}<b>{% end %}{{ u }}"),
+		one("using-macro", "{% x := 1 %}{% show itea(2); using macro(a int) %}{{ a + x }}{% end %}"),
+		one("package-level-using", "{% var P = itea; using %}p{% end %}{% macro M %}{{ P }}{% end %}{{ M() }}"),
+		one("default-and-render-missing", "{{ nope default 3 }}{{ render \"missing.html\" default \"d\" }}"),
+		one("types-and-consts", "{% type T struct { A int } %}{% const c = 2 %}{% t := T{A: c} %}{% f := func() int { return t.A } %}{{ f() }}"),
+		one("select-and-defer", "{%% ch := make(chan int, 1); f := func() { defer func() { recover() }(); select { case ch <- g: default: } }; f(); show <-ch %%}"),
+		{Name: "typed:render", Entry: "index.html", Files: map[string]string{"index.html": "{% x := 1 %}{{ render \"p.html\" }}{% f := func() int { return x } %}{{ f() }}", "p.html": "{% y := 2 %}{% h := func() int { return y + g } %}{{ h() }}"}},
+		{Name: "typed:import", Entry: "index.html", Files: map[string]string{"index.html": "{% import \"lib.html\" %}{{ A() }}{{ B() }}{% macro C %}{{ V }}{{ A() }}{% end %}{{ C() }}", "lib.html": lib}},
+		{Name: "typed:import-named", Entry: "index.html", Files: map[string]string{"index.html": "{% import l \"lib.html\" %}{% macro C %}{{ l.V }}{{ l.B() }}{% end %}{{ C() }}", "lib.html": lib}},
+		{Name: "typed:extends", Entry: "index.html", Files: map[string]string{"index.html": "{% extends \"layout.html\" %}{% var v = 5 %}{% macro Title %}{{ v }}{% end %}{% macro Main %}{{ Title() }}{{ g }}{% end %}", "layout.html": "<html>{{ Title() }}{{ Main() }}</html>"}},
+		{Name: "typed:extends-distfree", Entry: "index.html", Files: map[string]string{"index.html": "{% extends \"layout.html\" %}\n{% var v = 5 %}\n{% Main %}\nm {{ v + g }}", "layout.html": "<html>{{ Main() }}</html>"}},
+	}
+}
+
 // ---- expression grammar ----
 
 // A production is source text with holes: %e expression, %t type.
@@ -141,7 +217,22 @@ func typeProductions() []production {
 
 // Leaves.
 var exprLeaves = []string{"a", "1"}
-var exprLeavesExtra = []string{`"s"`, "`r`", "'c'", "1.5", "2i", "0x1F", "nil", "true", "_", `render "p.html"`, "itea", "p.V", "iota"}
+var exprLeavesExtra = append([]string{`"s"`, "`r`", "'c'", "1.5", "2i", "0x1F", "nil", "true", "_", `render "p.html"`, "itea", "p.V", "iota"}, literalLeaves()...)
+
+// OddPaths are template paths, as source literals, that need escaping or are
+// written as raw strings: backslash, tab, quote, backquote, non-ASCII.
+var OddPaths = []string{`"we\\ird.html"`, `"ta\tb.html"`, `"q\"uote.html"`, "\"b`q.html\"", `"é.html"`, `"\u00e9\x41.html"`, "`raw\\b.html`", "`r\"q.html`", "`é.html`", `"sp ace.html"`}
+
+// literalLeaves are string and rune literals whose text and value differ, and
+// render expressions over the odd paths.
+func literalLeaves() []string {
+	out := []string{`"a\\b"`, `"t\tb"`, `"q\"q"`, "\"b`q\"", `"é"`, `"\u00e9\x41\101"`, `""`, "`a\\b`", "`q\"q`", "`é`", "``", "`l1\nl2`",
+		`'\\'`, `'\t'`, `'\''`, `'"'`, `'é'`, `'\x3c'`, `'\u00e9'`, `'\U0001F600'`, `'\101'`}
+	for _, p := range OddPaths {
+		out = append(out, "render "+p, "render "+p+" default a")
+	}
+	return out
+}
 var typeLeaves = []string{"T", "int"}
 var typeLeavesExtra = []string{"p.T", "html", "error"}
 
@@ -458,6 +549,19 @@ func Statements(tier string) []Case {
 		for _, s := range expand(p) {
 			add("template-form", "index.html", s)
 		}
+		// extends/import/render with paths that need escaping
+		for _, plain := range []string{`"p.html"`, `"layout.html"`, `"p"`} {
+			if strings.Contains(p, plain) {
+				canon := fill(p, []string{"a"}, []string{"T"})[0]
+				for _, odd := range OddPaths {
+					add("template-form-odd-path", "index.html", strings.Replace(canon, plain, odd, 1))
+				}
+			}
+		}
+	}
+	for _, odd := range OddPaths {
+		add("go-form-odd-path", "index.html", "{%% import "+odd+" %%}")
+		add("go-form-odd-path", "index.html", "{%% import q "+odd+" %%}")
 	}
 	for _, p := range mdStmts {
 		for _, s := range expand(p) {
